@@ -63,7 +63,7 @@ class EpSim:
     def op(self, line):
         if self.dead:
             return "dead"
-        out = self.it.op(line, timeout=5)
+        out = self.it.op(line, timeout=30)
         self.ops.append(line); self.outs.append(out)
         if out.startswith("trap") or out in ("hang", "abort"):
             self.dead = True
